@@ -253,6 +253,8 @@ class Interp(object):
                 return ClassRef(v.cls)
             if attr in v.attrs:
                 return v.attrs[attr]
+            if v.cls == 'Constant' and attr in ('n', 's') and 'value' in v.attrs:
+                return v.attrs['value']  # ast_compat adds n/s aliases to Constant
             # methods of repository classes
             if self.model is not None:
                 for cq in self.model.classes:
@@ -564,6 +566,12 @@ class Interp(object):
             return self.construct(fv, args, kwargs)
         if isinstance(fv, tuple) and len(fv) == 3 and fv[0] == 'pymethod':
             _, recv, attr = fv
+            if attr in ('append', 'add', 'insert', 'extend') and isinstance(recv, (list, set)) and any(a is TOP or isinstance(a, Obj) for a in args):
+                try:
+                    getattr(recv, attr)(*args)
+                except TypeError:
+                    return TOP
+                return None
             if any(a is TOP for a in args):
                 return TOP
             if any(isinstance(a, Obj) for a in args):
